@@ -29,11 +29,15 @@ OTHERWISE, ARISING FROM, OUT OF OR IN CONNECTION WITH THE SOFTWARE OR THE USE OR
 
 from __future__ import annotations
 
+import itertools
 import string
 from typing import TYPE_CHECKING
 
 if TYPE_CHECKING:
     from collections.abc import Container
+
+
+MAX_KEYS = 4096
 
 
 class AnalysisError(Exception):
@@ -203,12 +207,10 @@ def all_keys(key_possible_bytes: list[list[int]], key_part: tuple[int, ...] = ()
     """
     Produce all combinations of possible key chars
     """
-    keys = []
-    if offset >= len(key_possible_bytes):
-        return [bytes(key_part)]
-    for c in key_possible_bytes[offset]:
-        keys += all_keys(key_possible_bytes, (*key_part, c), offset + 1)
-    return keys
+    # The number of combinations is the product of the number of ties at every key offset and explodes easily;
+    # only the first MAX_KEYS combinations (in the same order as before) are produced.
+    combinations = itertools.islice(itertools.product(*key_possible_bytes[offset:]), MAX_KEYS)
+    return [bytes((*key_part, *combination)) for combination in combinations]
 
 
 # -----------------------------------------------------------------------------
